@@ -15,6 +15,7 @@ import (
 	"strconv"
 	"strings"
 	"sync"
+	"syscall"
 	"time"
 
 	"verifharness/mon"
@@ -71,6 +72,11 @@ type modelTSM struct {
 	// fault injection: fail the k-th call of an operation kind (1-based), 0 = never
 	failMkdir, failWrite int
 	mkdirs, writes       int
+	// environment faults on the lookup path: the first hideDir listings of the rtmrs directory fail (-1: all of them); the
+	// index attribute of the entries that existed before the history cannot be read
+	hideDir   int
+	hideIndex map[string]bool
+	readDirs  int
 }
 type tsmEntry struct {
 	index    string // content of the index file ("" = unbound)
@@ -135,6 +141,9 @@ func (m *modelTSM) ReadFile(name string) ([]byte, error) {
 	}
 	switch attr {
 	case "index":
+		if m.hideIndex[e] {
+			return nil, &os.PathError{Op: "read", Path: name, Err: syscall.EIO}
+		}
 		if !ent.hasIndex {
 			return nil, errors.New("model: index not set")
 		}
@@ -173,6 +182,10 @@ func (m *modelTSM) ReadDir(dirname string) ([]os.DirEntry, error) {
 	if dirname != rtmrRoot {
 		return nil, os.ErrNotExist
 	}
+	m.readDirs++
+	if m.hideDir < 0 || m.readDirs <= m.hideDir {
+		return nil, &os.PathError{Op: "open", Path: dirname, Err: syscall.EACCES}
+	}
 	var names []string
 	for n := range m.entries {
 		names = append(names, n)
@@ -206,6 +219,15 @@ func (m *modelTSM) WriteFile(name string, contents []byte) error {
 		if ent.hasIndex {
 			op.Err = "busy"
 			return errors.New("model: index already set")
+		}
+		// the kernel binds one entry per register: a second entry asking for a bound index gets EBUSY
+		if want, err := strconv.Atoi(strings.TrimSpace(string(contents))); err == nil {
+			for other, oe := range m.entries {
+				if i, err := strconv.Atoi(strings.TrimSpace(oe.index)); err == nil && oe.hasIndex && i == want && other != e {
+					op.Err = "index-held-by-another-entry"
+					return &os.PathError{Op: "write", Path: name, Err: syscall.EBUSY}
+				}
+			}
 		}
 		ent.index, ent.hasIndex = string(contents), true
 		return nil
@@ -277,10 +299,13 @@ type rtmrHistory struct {
 	FailMkdir int       `json:"fail_mkdir"`
 	FailWrite int       `json:"fail_write"`
 	ByValue   bool      `json:"by_value,omitempty"` // hand the client over as a by-value, non-comparable struct
+	HideDir   int       `json:"hide_dir,omitempty"`   // the first HideDir listings of the rtmrs directory fail (-1: every listing)
+	HideIndex bool      `json:"hide_index,omitempty"` // the index attribute of the pre-existing entries is unreadable
 }
 
 type rtmrResult struct {
 	problem  string
+	failed   int
 	accepted int
 	ops      int
 }
@@ -289,8 +314,11 @@ type rtmrResult struct {
 func runRtmrHistory(h *rtmrHistory) rtmrResult {
 	m := newModelTSM()
 	m.failMkdir, m.failWrite = h.FailMkdir, h.FailWrite
+	m.hideDir, m.hideIndex = h.HideDir, map[string]bool{}
+	envFault := h.HideDir != 0 || h.HideIndex
 	for _, p := range h.Pre {
 		kv := strings.SplitN(p, "=", 2)
+		m.hideIndex[kv[0]] = h.HideIndex
 		e := &tsmEntry{}
 		if len(kv) == 2 {
 			e.index, e.hasIndex = kv[1], true
@@ -376,6 +404,17 @@ func runRtmrHistory(h *rtmrHistory) rtmrResult {
 			}
 			continue
 		}
+		if err != nil && envFault {
+			// the lookup path of the TSM is faulty: the request may fail, but a request that failed has not extended anything
+			for _, o := range ops {
+				if o.Op == "WriteFile" && strings.HasSuffix(o.Path, "/digest") && o.Err == "" {
+					res.problem = where + "digest written although the request failed"
+					return res
+				}
+			}
+			res.failed++
+			continue
+		}
 		if err != nil {
 			res.problem = where + "valid request failed: " + err.Error()
 			return res
@@ -397,13 +436,13 @@ func runRtmrHistory(h *rtmrHistory) rtmrResult {
 					res.problem = where + "digest written to an entry that is not bound to the requested index: " + o.Path
 					return res
 				}
-				if prev, had := boundBefore[q.Index]; had && e != prev && mkdirs > 0 {
+				if prev, had := boundBefore[q.Index]; had && e != prev && mkdirs > 0 && !envFault {
 					res.problem = where + fmt.Sprintf("a new entry was created although entry %s was already bound to index %d", prev, q.Index)
 					return res
 				}
 			}
 		}
-		if _, had := boundBefore[q.Index]; had && mkdirs > 0 {
+		if _, had := boundBefore[q.Index]; had && mkdirs > 0 && !envFault {
 			res.problem = where + "a new entry was created although one was already bound to the index"
 			return res
 		}
@@ -524,6 +563,37 @@ func c17(x *mon.Ctx) {
 		}
 		hs = append(hs, h)
 	}
+	nplain := len(hs)
+	// a TSM whose lookup path is faulty (the rtmrs directory cannot be listed, for good or for the first few attempts; the index
+	// attribute of existing entries cannot be read) while entries are bound to the registers: the kernel refuses a second
+	// entry for a bound register, so such a request can fail — what it cannot do is report success without its one extend
+	for idx := 0; idx < 4; idx++ {
+		for _, hide := range []int{-1, 1, 2, 3, 5} {
+			for _, hideIndex := range []bool{false, true} {
+				for n := 1; n <= 3; n++ {
+					if hideIndex && hide > 0 {
+						continue
+					}
+					r := x.Rand(fmt.Sprint("envfault", idx, hide, hideIndex, n))
+					h := &rtmrHistory{Pre: []string{fmt.Sprintf("held%d=%d", idx, idx), "other=" + fmt.Sprint((idx+1)%4) + "\n"}}
+					if hideIndex {
+						h.HideIndex = true
+					} else {
+						h.HideDir = hide
+					}
+					for k := 0; k < n; k++ {
+						q := rtmrReq{Kind: "digest", Index: idx, Digest: randBytes(r, 48)}
+						if k == 1 {
+							q = rtmrReq{Kind: "log", Index: idx, Hash: uint(crypto.SHA384), Log: randBytes(r, 100)}
+						}
+						h.Reqs = append(h.Reqs, q)
+					}
+					hs = append(hs, h)
+				}
+			}
+		}
+	}
+	nenv := len(hs) - nplain
 	for i, h := range hs {
 		h.ByValue = i%2 == 1
 	}
@@ -537,6 +607,10 @@ func c17(x *mon.Ctx) {
 		}
 		param := fmt.Sprintf("pre=%v fail=%d/%d byvalue=%v %s", h.Pre, h.FailMkdir, h.FailWrite, h.ByValue, strings.Join(names, " ; "))
 		class := fmt.Sprintf("history-len-%d", min(len(h.Reqs), 4))
+		if h.HideDir != 0 || h.HideIndex {
+			class = "history-with-faulty-lookup"
+			param = fmt.Sprintf("hidedir=%d hideindex=%v ", h.HideDir, h.HideIndex) + param
+		}
 		if res.problem != "" {
 			x.Violation(class, param, res.problem, "rtmr-history", h)
 		}
@@ -545,6 +619,7 @@ func c17(x *mon.Ctx) {
 			x.Sample(map[string]any{"history": names, "pre_existing_entries": h.Pre, "accepted_requests": res.accepted, "tsm_operations_logged": res.ops})
 		}
 	})
+	x.Require("history-with-faulty-lookup", 8, 40, nenv)
 	x.Require("history-len-1", 20, 300, 600)
 	x.Require("history-len-2", 100, 100, 900)
 	x.Require("history-len-3", 1000, 1000, 9000)
